@@ -6,8 +6,8 @@ ID=$1; P=$2; T=${3:-quick}
 W=/tmp/seedwt-$ID
 git -C /repo worktree remove --force "$W" 2>/dev/null
 git -C /repo worktree add -q "$W" HEAD || exit 2
-cp /repo/*/verif_*.go "$W"/ 2>/dev/null  # (hooks are committed; nothing to copy normally)
-if ! git -C "$W" apply /verif/seeded/"$ID"/patch.diff; then echo "PATCH DOES NOT APPLY"; git -C /repo worktree remove --force "$W"; exit 3; fi
+PATCH=/verif/seeded/"$ID"/patch.diff; [ -f /verif/seeded/"$ID"/patch-rebased.diff ] && PATCH=/verif/seeded/"$ID"/patch-rebased.diff
+if ! git -C "$W" apply "$PATCH"; then echo "PATCH DOES NOT APPLY"; git -C /repo worktree remove --force "$W"; exit 3; fi
 /verif/tools/altcheck.sh "$W" "$P" "$T"; RC=$?
 echo "seedcheck $ID $P rc=$RC"
 git -C /repo worktree remove --force "$W"; rm -rf /tmp/verif-alt-seedwt-"$ID"; git -C /repo worktree prune
